@@ -76,6 +76,10 @@ func (n addNetworkDelegationTx) Validate(ctx *action.Context, tx action.SignedTx
 		return false, err
 	}
 
+	if !delegate.Amount.IsValid(ctx.Currencies) || delegate.Amount.Currency != action.DEFAULT_CURRENCY {
+		return false, errors.Wrap(action.ErrInvalidAmount, delegate.Amount.String())
+	}
+
 	return true, nil
 }
 
